@@ -131,6 +131,8 @@ class Extractor:
         self.assumptions = {}     # text -> set(roles)
         self.blocking = {}        # text -> set(roles)
         self.unguarded = {}       # (text, held) -> set(roles): queue operations that can wait for another thread
+        self.accesses = {}        # (class, attr, 'r'|'w') -> {'locked': n, 'unlocked': set(where)}: field accesses of lock-owning classes
+        self.init_only = {}       # (class, attr) -> True while every write seen is inside __init__
         self.visited_files = set()
         self.memo = set()
         self.active = set()
@@ -417,6 +419,36 @@ class Extractor:
         held = ','.join(sorted({l for l, _ in ctx['held']})) or '-'
         self.unguarded.setdefault((f"Queue.{m}() on `{recv}` [{self.loc(ctx, e)}]", held), set()).add(self.role)
 
+    def note_access(self, ctx, attr, kind, node):
+        """a read / write of `self.<attr>` in a method of a class that owns a lock: is the object's own lock held?"""
+        c = ctx.get('cls')
+        if not c or c not in self.classes:
+            return
+        locks = self._lock_attrs(c)
+        if not locks or attr in locks:
+            return
+        owner = None
+        for a in self._ancestors(c):
+            if attr in self.classes[a].attrs:
+                owner = a
+                break
+        if owner is None:
+            return                      # a method / property / unknown name: not a field
+        fn = ctx.get('fn')
+        if kind == 'w' and fn != '__init__':
+            self.init_only[(owner, attr)] = False
+        else:
+            self.init_only.setdefault((owner, attr), True)
+        if fn == '__init__':
+            return                      # the object is not shared yet
+        own = {f"{a}.{l}" for l, a in locks.items()}
+        held = any(l in own and t == ctx['self_tok'] for l, t in ctx['held'])
+        e = self.accesses.setdefault((owner, attr, kind), {'locked': 0, 'unlocked': set()})
+        if held:
+            e['locked'] += 1
+        else:
+            e['unlocked'].add(f"{c}.{fn}")
+
     def note_blocking(self, ctx, what, node):
         held = ','.join(sorted({l for l, _ in ctx['held']})) or '-'
         self.blocking.setdefault(f"{what} [{self.loc(ctx, node)}] holding {{{held}}}", set()).add(self.role)
@@ -465,6 +497,7 @@ class Extractor:
             'cls': owner, 'module': module, 'self_tok': self_tok, 'env': env,
             'held': list(ctx['held']),
             'chain': ctx['chain'] + [f"{qual} [{module}:{fn.lineno}]"] if len(ctx['chain']) < 12 else ctx['chain'],
+            'fn': fn.name,
         }
         self.block(fn.body, sub)
         self.depth -= 1
@@ -611,6 +644,8 @@ class Extractor:
             return
         if isinstance(tgt, ast.Attribute):
             rt = self.expr(tgt.value, ctx)
+            if self.is_self(tgt.value):
+                self.note_access(ctx, tgt.attr, 'w', tgt)
             for c in self.cls_names(rt):
                 for a, _, fn in self.impls(c, tgt.attr, 'setters'):
                     tok = ctx['self_tok'] if self.is_self(tgt.value) else self.token_for(c, self.loc(ctx, tgt), ctx['self_tok'], ctx['held'])
@@ -737,6 +772,8 @@ class Extractor:
 
     def attribute(self, e, ctx):
         rt = self.expr(e.value, ctx)
+        if self.is_self(e.value) and isinstance(getattr(e, 'ctx', None), ast.Load):
+            self.note_access(ctx, e.attr, 'r', e)
         if rt is None:
             if e.attr in self.lock_props:
                 raise TieBroken(f"{self.loc(ctx, e)}: .{e.attr} read on a receiver of unknown type "
@@ -1016,6 +1053,9 @@ def extract(repo: Path):
                               for k, v in ex.assumptions.items()),
         'blocking': sorted((k, sorted(v)) for k, v in ex.blocking.items()),
         'unguarded': sorted((k[0], k[1], sorted(v)) for k, v in ex.unguarded.items()),
+        # fields of lock-owning classes that are written after construction and touched somewhere without the owner's lock
+        'unlocked': sorted((c, a, k, sorted(v['unlocked'])) for (c, a, k), v in ex.accesses.items()
+                           if v['unlocked'] and not ex.init_only.get((c, a), True)),
         'reentries': sorted((k[0], k[1], sorted(v)) for k, v in ex.reentries.items()),
         'files': sorted(ex.visited_files - {'<entry>'}),
         'sources': ex.sources,
@@ -1063,6 +1103,12 @@ def render(g):
     L.append("/-- queue operations that can WAIT for another thread (a blocking `Queue.put` outside a `not full()` guard on the")
     L.append("same queue, a blocking `Queue.get`), with the locks held: (what and where, locks held). -/")
     L.append("def queueWaits : List (String × String) := [" + ", ".join(f'("{w}", "{h}")' for w, h, _ in g['unguarded']) + "]")
+    L.append("")
+    L.append("/-- fields of lock-owning classes that are written after construction and, on some path from a thread role's entry")
+    L.append("point, read or written WITHOUT (one of) the owning object's own lock(s) held: (class, field, r/w, where).  The")
+    L.append("sequential models treat every public method as one atomic step; that is justified when this table is empty. -/")
+    L.append("def unlockedAccesses : List (String × String × String × String) := [" + ", ".join(
+        f'("{c}", "{a}", "{k}", "{" ".join(w)}")' for c, a, k, w in g['unlocked']) + "]")
     L.append("end Bobo.Gen.Locks")
     return "\n".join(L) + "\n"
 
